@@ -9,6 +9,7 @@ import (
 	"fmt"
 	"io"
 	"net/http"
+	"sort"
 	"strings"
 	"time"
 	"unsafe"
@@ -597,8 +598,76 @@ func c19StoreFault(n int, which string, pb int) vx.Scenario {
 		}}
 }
 
+// c19PartGone: a blob of n bytes is stored, then one of its overflow parts disappears (the clean-up job
+// removes parts by age on its own); reading must fail or return the whole blob, never a shortened one.
+func c19PartGone(n int, which int) vx.Scenario {
+	return vx.Scenario{Name: fmt.Sprintf("c19/store/part-gone/%d/part%d", n, which), PB: 0, Single: true, MaxSteps: 100000, MaxTime: time.Hour,
+		Setup: func(s *vs.Sched) func(*vs.Result) vx.Exec {
+			data := payload(5, n)
+			var gotResp, gotReq []byte
+			var rerr, qerr error
+			removed := 0
+			done := false
+			s.Thread("driver", func() {
+				vae.Reset()
+				st := cache.NewCachingStore(store.NewPersistentStore())
+				ctx := context.Background()
+				st.WriteResponse(ctx, &types.Response{BackendID: "b1", RequestID: "r1", Contents: data})
+				st.WriteRequest(ctx, types.NewRequest("b1", "r1", u1, data))
+				// remove the which-th part entity of every blob; memcache does not hold blobs this large
+				for kind, ents := range vae.W().Kinds {
+					if !strings.Contains(strings.ToLower(kind), "part") {
+						continue
+					}
+					var ids []string
+					for id := range ents {
+						ids = append(ids, id)
+					}
+					sort.Strings(ids)
+					for _, id := range ids {
+						if strings.HasSuffix(id, fmt.Sprint(which)) {
+							delete(ents, id)
+							removed++
+						}
+					}
+				}
+				if r, err := st.ReadResponse(ctx, "b1", "r1"); err != nil {
+					rerr = err
+				} else {
+					gotResp = r.Contents
+				}
+				if r, err := st.ReadRequest(ctx, "b1", "r1"); err != nil {
+					qerr = err
+				} else {
+					gotReq = r.Contents
+				}
+				done = true
+			})
+			return func(r *vs.Result) vx.Exec {
+				var x vx.Exec
+				base(r, &x)
+				x.Obs = fmt.Sprintf("%d bytes, %d part entities removed: response err=%v %d bytes, request err=%v %d bytes", n, removed, rerr != nil, len(gotResp), qerr != nil, len(gotReq))
+				if !done || removed == 0 {
+					return x
+				}
+				if rerr == nil && !bytes.Equal(gotResp, data) {
+					x.Violations = append(x.Violations, fmt.Sprintf("BLOB-SHORTENED: a stored response of %d bytes, one of whose parts is gone, read back without an error as %d bytes", n, len(gotResp)))
+				}
+				if qerr == nil && !bytes.Equal(gotReq, data) {
+					x.Violations = append(x.Violations, fmt.Sprintf("BLOB-SHORTENED: a stored request of %d bytes, one of whose parts is gone, read back without an error as %d bytes", n, len(gotReq)))
+				}
+				return x
+			}
+		}}
+}
+
 func c19Scenarios(th bool) []vx.Scenario {
 	var out []vx.Scenario
+	for _, n := range []int{1500000, 2500000, 3200000} {
+		for _, w := range []int{0, 1} {
+			out = append(out, c19PartGone(n, w))
+		}
+	}
 	for _, n := range []int{1500000, 2000001, 3200000} {
 		for _, which := range []string{"all-parts", "odd-parts", "even-parts", "entity", "everything"} {
 			out = append(out, c19StoreFault(n, which, 1))
